@@ -253,13 +253,13 @@ def run(ctx: Ctx):
                 "sansio parse_cookie (whole header and the pair a user agent returns), http.parse_cookie(environ) and, where the path/domain "
                 "allow a request to be formed, the test client's jar + next request; cases = TLC-exported model universe (values <= 2/3 chars over "
                 "18 representative code points, every byte value and class-boundary code point alone and between letters, attribute products), a "
-                "sweep of 400+ boundary code points in 6 contexts, seeded random values over all of Unicode weighted to quotes/separators/"
+                "sweep of 400+ boundary code points in 6 contexts, an attribute-grammar product (Domain: leading dot(s) x port x 1-3 labels x script per position incl. IDN TLDs and mixed case x dump_cookie / Response.set_cookie / Response.delete_cookie / Client.set_cookie; Path: feature subsets over 1-3 segments), seeded random values over all of Unicode weighted to quotes/separators/"
                 "controls/attack strings with random attribute combinations; non-trivial = distinct case whose value has a character outside "
                 "the cookie-octet set or that requests at least one attribute")
     ctx.assumptions += [
         "a space inside the quoted form may stay raw (tests/test_http.py::test_dump_cookie documents 'foo=\"bar baz blub\"'); every other octet outside cookie-octet must be escaped",
         "canonical attribute order is Domain, Expires, Max-Age, Secure, HttpOnly, Path, SameSite, Partitioned; attributes are joined by '; '",
-        "IDNA of non-ASCII labels is an uninterpreted function given by a table of well-known pairs; domains are host names (no ';' or controls), keys are RFC 7230 tokens, values are sequences of Unicode scalar values (no lone surrogates)",
+        "IDNA of a non-ASCII label is a trusted input: the harness logs Python's idna codec applied to each BARE host label (never to the domain argument as a whole), with a built-in table of well-known pairs as fallback; the judge itself drops port and leading dots, splits the labels and assembles the canonical Domain (ASCII labels unchanged, case kept); domains are host names (no ';' or controls), keys are RFC 7230 tokens, values are sequences of Unicode scalar values (no lone surrogates)",
         "the Path attribute must be printable ASCII without ';' and percent-decode to the requested path; its exact quoting is only compared as model drift",
         "a clock-derived Expires (max_age given, expires not) must equal the HTTP date of clock+max_age for a clock reading between the instants recorded around the call (+-1 s)",
         "the jar path is exercised only for paths of unreserved characters and ASCII-lowercase hosts (so that a matching request can be formed without knowledge of the implementation)",
